@@ -232,6 +232,11 @@ impl IceConn {
         addr: SocketAddr,
         reason: &'static str,
     ) {
+        #[cfg(rustrtc_verif)]
+        verif_sched::point("pair:before-lock");
+        // The probation mutex serialises every change of the latch state (flags, table,
+        // destination) with the commit in `receive`.
+        let _latch_state = self.probation.lock();
         let current = *self.remote_addr.read();
         if self.latch_on_rtp.load(Ordering::Relaxed)
             && self.rtp_latched.load(Ordering::Relaxed)
@@ -250,10 +255,15 @@ impl IceConn {
     }
 
     pub(crate) fn set_remote_addr_from_signaling(&self, addr: SocketAddr, reason: &'static str) {
-        self.reset_latch();
         #[cfg(rustrtc_verif)]
-        verif_sched::point("sig:before-remote-write");
-        *self.remote_addr.write() = addr;
+        verif_sched::point("sig:before-lock");
+        {
+            let mut probation = self.probation.lock();
+            self.reset_latch_locked(&mut probation);
+            #[cfg(rustrtc_verif)]
+            verif_sched::point("sig:before-remote-write");
+            *self.remote_addr.write() = addr;
+        }
         trace!(
             "IceConn: signaling RTP remote set to {} ({}), latch reset",
             addr, reason
@@ -263,12 +273,21 @@ impl IceConn {
     /// Reset latching state before applying a remote SDP so a new source can
     /// be selected. Clears both the latch flag and any in-progress probation.
     pub fn reset_latch(&self) {
+        #[cfg(rustrtc_verif)]
+        verif_sched::point("reset:before-lock");
+        let mut probation = self.probation.lock();
+        self.reset_latch_locked(&mut probation);
+    }
+
+    /// `reset_latch` with the probation mutex held by the caller, so the flags and the
+    /// table change together with respect to a concurrent `receive`.
+    fn reset_latch_locked(&self, probation: &mut Option<RtpProbationState>) {
         self.rtp_latched.store(false, Ordering::Relaxed);
         self.rtcp_latched.store(false, Ordering::Relaxed);
         #[cfg(rustrtc_verif)]
-        verif_sched::point("reset:before-lock");
+        verif_sched::point("reset:after-flags");
         let max = self.probation_max_packets.load(Ordering::Relaxed);
-        *self.probation.lock() = if self.latch_on_rtp.load(Ordering::Relaxed) && max > 0 {
+        *probation = if self.latch_on_rtp.load(Ordering::Relaxed) && max > 0 {
             Some(RtpProbationState {
                 candidates: Vec::new(),
                 total_packets: 0,
@@ -277,8 +296,6 @@ impl IceConn {
         } else {
             None
         };
-        #[cfg(rustrtc_verif)]
-        verif_sched::point("reset:unlocked");
     }
 
     pub fn set_dtls_receiver(&self, receiver: Arc<dyn PacketReceiver>) {
@@ -553,7 +570,13 @@ impl PacketReceiver for IceConn {
                         #[cfg(rustrtc_verif)]
                         verif_sched::point("recv:before-lock");
                         let mut probation_guard = self.probation.lock();
-                        if let Some(ref mut prob) = *probation_guard {
+                        // Decide under the lock, which is held until table, destination and
+                        // flag are consistent again: a signaling reset / retarget or a pair
+                        // update may have run since the unlocked checks above.
+                        let current_remote = *self.remote_addr.read();
+                        if self.rtp_latched.load(Ordering::Relaxed) {
+                            // latched meanwhile — nothing to do
+                        } else if let Some(ref mut prob) = *probation_guard {
                             prob.total_packets = prob.total_packets.saturating_add(1);
 
                             let pos = prob.candidates.iter().position(|c| c.addr == addr);
@@ -642,9 +665,8 @@ impl PacketReceiver for IceConn {
                             if let Some(win_addr) = winner {
                                 // Commit the latch.
                                 *probation_guard = None; // drop state
-                                drop(probation_guard);
                                 #[cfg(rustrtc_verif)]
-                                verif_sched::point("recv:unlocked");
+                                verif_sched::point("recv:before-commit-write");
 
                                 // `remote_addr` now holds `addr` (the probation move
                                 // above), not the stale `current_remote` snapshot.
